@@ -18,7 +18,7 @@ func init() {
 	register(&Prop{
 		ID: "C11", Level: "exploration",
 		Rule: "one case = a router shaped by a seeded mutation history over routes of GET/POST/PURGE/OPTIONS with per-route trailing-slash options, under one of the four combinations of the method-not-allowed and auto-OPTIONS options (custom recording no-route/no-method/options handlers; the built-in redirect handler is observed through a middleware scoped to it); probes use every method incl. OPTIONS, methods without routes, and the target '*'. Oracle for requests no route serves: which special handler runs (OPTIONS with auto replies: options handler iff some method serves the target, else no-route; otherwise no-method iff another method serves it and the option is on; otherwise no-route), the Allow header compared as a set with exactly the methods whose reference match serves host+path directly or by ignoring a trailing slash (+OPTIONS as stated; for '*' every method that has routes), and the context seen by the handler (no route, empty pattern, no parameters, the handler's scope). Where a per-method routing answer falls in a listed C08 known finding, the composition rules are checked against fox's own per-method answer and the finding is counted. Non-trivial: at least 2 probes were answered by a special handler with a non-empty Allow header; distinct = hash of (options, final set, probes).",
-		Run:  runC11, Quick: 16000, Thorough: 1600000,
+		Run:  runC11, Quick: 64000, Thorough: 6400000,
 		Real: commonReal, Stub: commonStub,
 		Tolerances: []string{"leading_slash_capture as in C01", "with auto-OPTIONS enabled a 405 reply lists OPTIONS as well (an OPTIONS request for that target would be answered)"},
 		Domain:     []string{"as C01 with methods GET, POST, PURGE, OPTIONS"},
